@@ -3,34 +3,35 @@ SPEC = dict(
         text="Machine-checked theorems (Coq 8.16.1) about an executable model of ship/helper.go: JSON documents are trees with "
              "opaque literal bytes (so member order and number literals are part of equality); to_eebus is the tree rewrite of "
              "JsonIntoEEBUSJson, render is Go's compact json.Marshal text, from_eebus is JsonFromEEBUSJson byte for byte "
-             "(a generic leftmost non-overlapping ReplaceAll, the four pattern pairs regenerated from the Go AST, the NUL trim). "
-             "Proved for all documents of any depth and width: (a) the wire tree has exactly the SHIP shape - every object, at "
-             "every level, becomes the array of its single-member objects in order and nothing else changes, and the shape "
-             "determines the tree; (b) from_eebus(wire d) = render(norm d) for every document with a non-empty top-level object "
-             "whose literals contain none of the four patterns, where norm turns empty arrays into empty objects, hence = render d "
-             "without empty arrays; (c) the unrestricted statement is refuted with three witnesses ({\"a\":[]}, a string holding a "
-             "pattern, the empty document); (d) member names and scalar literals come back in the same order, digit for digit. "
-             "Tie, checked on every run: the real JsonFromEEBUSJson against the model byte-exact on arbitrary and mutated wire "
-             "text, the real JsonIntoEEBUSJson against the model as text and as trees on random documents, and the shape and "
-             "round-trip monitors of the theorems evaluated inside Coq on the implementation's own outputs.",
+             "(string literals copied, between them a generic leftmost non-overlapping ReplaceAll for each of the four pattern "
+             "pairs regenerated from the Go AST, then the NUL trim). Proved for all documents of any depth and width: (a) the "
+             "wire tree has exactly the SHIP shape - every object, at every level, becomes the array of its single-member objects "
+             "in order and nothing else changes, and the shape determines the tree; (b) from_eebus(wire d) = render(norm d) for "
+             "every lexically well-formed document with a non-empty top-level object and ANY string contents, where norm turns "
+             "empty arrays into empty objects, hence = render d without empty arrays; (c) the unrestricted statement is refuted "
+             "with witnesses ({\"a\":[]}, the empty document) and the repaired defect is kept as a theorem about the whole-text "
+             "replacement ({\"a\":\"[{x}]\"} came back as {\"a\":\"{x}\"}); (d) member names and scalar literals come back in the "
+             "same order, digit for digit. Tie, checked on every run: the real JsonFromEEBUSJson against the model byte-exact on "
+             "arbitrary and mutated wire text, the real JsonIntoEEBUSJson against the model as text and as trees on random "
+             "documents, and the shape and round-trip monitors of the theorems evaluated inside Coq on the implementation's own outputs.",
         note="Trusted: Coq kernel + vm_compute; the Go-AST translator (harness/cmd/extract/eebus.go); jsondrv (generator, its "
-             "tokenizer, Gallina emitters). Modelled, not verified: encoding/json and go-ordered-json decoding and string "
+             "tokenizer, case transport code). Modelled, not verified: encoding/json and go-ordered-json decoding and string "
              "escaping (the model starts from the decoded tree with literals in json.Marshal's spelling); documents with "
              "duplicate member names are outside the model. No axioms (Print Assumptions: closed under the global context). "
-             "Known findings: an empty array comes back as an empty object (inherent in the wire form); the empty document has "
-             "an empty wire text.",
-        technique="Coq proof (nested induction over trees, token-level simulation of the four ReplaceAll passes) + table regenerated from source + differential correspondence with in-Coq monitors",
+             "Repaired in /repo: replacements inside string literals (932d958). Known findings: an empty array comes back as an "
+             "empty object (inherent in the wire form, SPINE relies on it); the empty document has an empty wire text.",
+        technique="Coq proof (nested induction over trees, token-level simulation of the four ReplaceAll passes, scanner lemma for string literals) + table regenerated from source + differential correspondence with in-Coq monitors",
         ref="DESIGN.md §6 C07"),
     imports="From Ship Require Import Base Eebus.",
     case_type="bytes", check_fn="check_c07_enc",
-    drivers=[dict(bin="jsondrv", args=["-prop", "C07"], n_quick=3600, n_thorough=90000)],
+    drivers=[dict(bin="jsondrv", args=["-prop", "C07"], n_quick=3000, n_thorough=90000)],
     codes={10: "wire_shape_wrong",
            11: "roundtrip_lost_empty_array",
            12: "roundtrip_corrupted_string_containing_pattern",
            13: "roundtrip_lost_empty_document",
            14: "roundtrip_other_loss"},
     rule="fixed inputs first (the refutation witnesses of props/C07.v, the helper_test.go messages, SHIP handshake messages, "
-         "pattern fragments); then 62% random documents with a top-level object (depth <= 6, width <= 6, <= 80 nodes, empty "
+         "pattern fragments); then 62% random documents with a top-level object (depth <= 6, width <= 6, <= 50 nodes, empty "
          "objects/arrays, strings over alphabets rich in []{},\"\\ plus control/non-ASCII/HTML characters, numbers incl. 30+ "
          "digits, exponents, -0, 1.0; true/false/null; a quarter re-spelled with other escapes and white space in the input) "
          "through the real JsonIntoEEBUSJson then JsonFromEEBUSJson, outputs tokenised by the driver's own order- and "
